@@ -422,6 +422,14 @@ def analyse(case, b, results, labels, *, removal=True):
             labels.append("degenerate-scale")
         elif nu < 1:
             labels.append("zero-dof")
+            # zero degrees of freedom: chi2/nu and the chi-square probability are undefined; recomputing them
+            # from the definition with nu = n - k gives inf/NaN, so finite reported values are not
+            # "those recomputed from the returned parameters" (seeded/C17-s5)
+            g_red, g_p = _val(r.red_chisq), _val(r.p_value)
+            if math.isfinite(g_red) or math.isfinite(g_p):
+                raise Violation("zero-dof-statistics",
+                                f"peak {i}: window with {n} points for {k} parameters (0 degrees of freedom) reports "
+                                f"red_chisq = {g_red!r}, p = {g_p!r}; chi2/0 and the chi-square probability are undefined")
         else:
             with np.errstate(all="ignore"):
                 model = fs.polynomial(xs, bcoef) + fs.peak(pk, xs, ppar)
